@@ -230,7 +230,14 @@ func randDescFile(r *vh.Rand, idx int) (protoreflect.FileDescriptor, error) {
 		}
 		enums = append(enums, e)
 	}
+	// the first file of every run always has the shapes that random draws may miss: three nested levels
+	// of flatten (Obj0 > Obj1 > Obj2 > Obj3) with an exposed oneof and at least three members in each
+	// flattened child, proto3 optional members innermost
+	force := idx == 0
 	nObj := r.Range(2, 5)
+	if force {
+		nObj = r.Range(4, 5)
+	}
 	nWrap := r.Range(0, 2)
 	var objNames, wrapNames []string
 	for i := 0; i < nObj; i++ {
@@ -327,7 +334,7 @@ func randDescFile(r *vh.Rand, idx int) (protoreflect.FileDescriptor, error) {
 		if r.Chance(35) {
 			oneofs = append(oneofs, oo{false, r.Range(2, 3)})
 		}
-		if r.Chance(35) {
+		if r.Chance(35) || (force && oi >= 1 && oi <= 3) {
 			oneofs = append(oneofs, oo{true, r.Range(1, 3)})
 		}
 		for i, o := range oneofs {
@@ -341,9 +348,19 @@ func randDescFile(r *vh.Rand, idx int) (protoreflect.FileDescriptor, error) {
 		}
 		var optionals []*descriptorpb.FieldDescriptorProto
 		nf := r.Range(1, 7)
+		if force && nf < 3 {
+			nf = 3
+		}
 		for i := 0; i < nf; i++ {
 			name := take()
-			switch r.Intn(10) {
+			choice := r.Intn(10)
+			if force && i == 0 && oi+1 < len(objNames) && oi < 3 {
+				choice = 4 // flatten the next object
+			}
+			if force && i == 1 && oi == 3 {
+				choice = 9 // a plain member, made optional below when it is a scalar
+			}
+			switch choice {
 			case 0, 1: // repeated
 				fd := build(name, nextNum(), elem(false))
 				fd.Label = descriptorpb.FieldDescriptorProto_LABEL_REPEATED.Enum()
@@ -367,6 +384,9 @@ func randDescFile(r *vh.Rand, idx int) (protoreflect.FileDescriptor, error) {
 						cands = append(cands, objNames[oj])
 					}
 				}
+				if force && i == 0 && oi+1 < len(objNames) && !flattened[objNames[oi+1]] {
+					cands = []string{objNames[oi+1]}
+				}
 				if len(cands) > 0 {
 					c := vh.Pick(r, cands)
 					flattened[c] = true
@@ -378,7 +398,7 @@ func randDescFile(r *vh.Rand, idx int) (protoreflect.FileDescriptor, error) {
 			default:
 				f := elem(true)
 				fd := build(name, nextNum(), f)
-				if !f.msgLike && r.Chance(30) {
+				if !f.msgLike && (r.Chance(30) || (force && oi == 3 && i == 1)) {
 					fd.Proto3Optional = proto.Bool(true)
 					optionals = append(optionals, fd)
 				}
